@@ -235,10 +235,24 @@ func ExecuteLogs(t *testing.T, c *Case, prof *Profile, keepHist bool) Outcome {
 			if start < 20 {
 				start = 20
 			}
+			// the flips are applied in place to a copy cut 4 KiB after the last record
+			// (the zero-filled remainder of a 1-2 MiB log adds nothing but copying time)
+			trim := end + 4096
+			if trim > len(orig) {
+				trim = len(orig)
+			}
+			os.WriteFile(path, orig[:trim], 0o644)
+			fh, ferr := os.OpenFile(path, os.O_RDWR, 0o644)
+			if ferr != nil {
+				r.harness = "open log copy: " + ferr.Error()
+				return
+			}
+			defer fh.Close()
 			for k := start; k < end; k++ {
-				buf := append([]byte{}, orig...)
-				buf[k] ^= 0x5a
-				os.WriteFile(path, buf, 0o644)
+				if k > start {
+					fh.WriteAt([]byte{orig[k-1]}, int64(k-1))
+				}
+				fh.WriteAt([]byte{orig[k] ^ 0x5a}, int64(k))
 				if strings.HasSuffix(f.name, ".vlog") {
 					es, _, err := badger.VerifIterateLog(path, fidOf(f.name), opt)
 					if err == nil {
